@@ -334,6 +334,9 @@ def run_case(case):
                 trees.append(({"t": "S", "c": [{"t": "P", "c": [e1, {"t": "S", "c": []}]}, e2]}, "C20/degenerate-connection"))
     for t, fkey in trees:
         if fkey is None:
+            nt = G.tiny_subcircuits(rng, t, 0.2)  # before labelling: the new elements get labels / identifiers like any other
+            if nt:
+                st["trees_with_tiny_subcircuit"] = st.get("trees_with_tiny_subcircuit", 0) + 1
             unique_safe_labels(rng, t)
         try:
             c_obj = G.build_objects(t)
